@@ -1,6 +1,12 @@
 package main
 
 import (
+	"context"
+	"fmt"
+	"sort"
+	"strings"
+
+	"github.com/bufbuild/protocompile"
 	"google.golang.org/protobuf/proto"
 	"google.golang.org/protobuf/reflect/protodesc"
 	"google.golang.org/protobuf/reflect/protoreflect"
@@ -115,4 +121,158 @@ func twinTypes() []protoreflect.MessageType {
 		}
 	}
 	return out
+}
+
+// ---------------------------------------------------------------- types from proto source
+
+// compileProtoSources compiles hand-written proto source against the files linked into the
+// harness and registers the result (dynamic message types) in the global registries. Options are
+// re-parsed through the wire form so that j5 extensions are the generated extension types.
+func compileProtoSources(srcs map[string]string) []protoreflect.FileDescriptor {
+	var names []string
+	for n := range srcs {
+		names = append(names, n)
+	}
+	sort.Strings(names)
+	comp := protocompile.Compiler{
+		Resolver: protocompile.CompositeResolver{
+			&protocompile.SourceResolver{Accessor: protocompile.SourceAccessorFromMap(srcs)},
+			protocompile.ResolverFunc(func(path string) (protocompile.SearchResult, error) {
+				fd, err := protoregistry.GlobalFiles.FindFileByPath(path)
+				if err != nil {
+					return protocompile.SearchResult{}, err
+				}
+				return protocompile.SearchResult{Desc: fd}, nil
+			}),
+		},
+	}
+	files, err := comp.Compile(context.Background(), names...)
+	if err != nil {
+		panic(fmt.Sprintf("harness proto source does not compile: %v", err))
+	}
+	var out []protoreflect.FileDescriptor
+	// dependency order: a file only after the harness files it imports
+	done := map[string]bool{}
+	var reg func(name string)
+	reg = func(name string) {
+		if done[name] {
+			return
+		}
+		done[name] = true
+		f := files.FindFileByPath(name)
+		if f == nil {
+			return
+		}
+		imps := f.Imports()
+		for i := 0; i < imps.Len(); i++ {
+			if _, mine := srcs[imps.Get(i).Path()]; mine {
+				reg(imps.Get(i).Path())
+			}
+		}
+		b, err := proto.Marshal(protodesc.ToFileDescriptorProto(f))
+		if err != nil {
+			panic(err)
+		}
+		fdp := &descriptorpb.FileDescriptorProto{}
+		if err := proto.Unmarshal(b, fdp); err != nil {
+			panic(err)
+		}
+		fd, err := protodesc.NewFile(fdp, protoregistry.GlobalFiles)
+		if err != nil {
+			panic(err)
+		}
+		if err := protoregistry.GlobalFiles.RegisterFile(fd); err != nil {
+			panic(err)
+		}
+		for i := 0; i < fd.Messages().Len(); i++ {
+			if err := protoregistry.GlobalTypes.RegisterMessage(dynamicpb.NewMessageType(fd.Messages().Get(i))); err != nil {
+				panic(err)
+			}
+		}
+		out = append(out, fd)
+	}
+	for _, n := range names {
+		reg(n)
+	}
+	return out
+}
+
+// registerSourceTypes adds
+//   - test.zzcyc.v1: reference cycles with flattened edges inside them (what a flattened field
+//     looks like must not depend on which member of the cycle was used first);
+//   - test.zzwide.v1: types whose build FAILS late - after fields that refer to many healthy,
+//     feature-rich messages of the repository's own test protos (exposed oneofs, polymorphs,
+//     wrappers ...) were processed - in two ways (a fixed32 field, an enum without an
+//     *_UNSPECIFIED zero value). Whatever the failed build touched must be as good as new.
+func registerSourceTypes() {
+	cyc := `syntax = "proto3";
+package test.zzcyc.v1;
+import "j5/ext/v1/annotations.proto";
+
+message Node {
+  Meta meta = 1 [(j5.ext.v1.field).message.flatten = true];
+  string id = 2;
+}
+message Meta {
+  string label = 1;
+  Node parent = 2;
+}
+message RingA {
+  RingB b = 1 [(j5.ext.v1.field).message.flatten = true];
+  string a_name = 2;
+}
+message RingB {
+  RingC c = 1;
+  string b_name = 2;
+}
+message RingC {
+  RingA a = 1;
+  Tail tail = 2 [(j5.ext.v1.field).message.flatten = true];
+  string c_name = 3;
+}
+message Tail {
+  string tail_note = 1;
+  RingB back = 2;
+}
+`
+	var refs []string
+	for _, path := range []string{"test/schema/v1/full_schema.proto", "test/foo/v1/foo.proto"} {
+		fd, err := protoregistry.GlobalFiles.FindFileByPath(path)
+		if err != nil {
+			continue
+		}
+		for i := 0; i < fd.Messages().Len(); i++ {
+			md := fd.Messages().Get(i)
+			if !staticallyUnreflectable(md, map[protoreflect.FullName]bool{}) {
+				refs = append(refs, string(md.FullName()))
+			}
+		}
+	}
+	sort.Strings(refs)
+	var sb strings.Builder
+	sb.WriteString("syntax = \"proto3\";\npackage test.zzwide.v1;\nimport \"test/schema/v1/full_schema.proto\";\nimport \"test/foo/v1/foo.proto\";\n\n")
+	sb.WriteString("enum Colour {\n  RED = 0;\n  GREEN = 1;\n}\n\n")
+	per := 5
+	n := 0
+	for i := 0; i*per < len(refs) && i < 8; i++ {
+		fmt.Fprintf(&sb, "message Wide%c {\n", 'A'+i)
+		num := 1
+		for _, r := range refs[i*per : min(len(refs), i*per+per)] {
+			fmt.Fprintf(&sb, "  .%s f%d = %d;\n", r, num, num)
+			num++
+		}
+		if i%2 == 0 {
+			fmt.Fprintf(&sb, "  fixed32 bad = %d;\n", num)
+		} else {
+			fmt.Fprintf(&sb, "  Colour bad = %d;\n", num)
+		}
+		num++
+		// and one more healthy reference after the culprit
+		fmt.Fprintf(&sb, "  .%s after = %d;\n}\n\n", refs[(i*per+per)%len(refs)], num)
+		n++
+	}
+	compileProtoSources(map[string]string{
+		"test/zzcyc/v1/cyc.proto":   cyc,
+		"test/zzwide/v1/wide.proto": sb.String(),
+	})
 }
